@@ -684,6 +684,7 @@ def write_if_changed(path: Path, content: str):
 
 
 def main():
+    sys.path.insert(0, str(Path(__file__).resolve().parent))
     repo, outdir = Path(sys.argv[1]), Path(sys.argv[2])
     outdir.mkdir(parents=True, exist_ok=True)
     srcs = {
@@ -693,6 +694,7 @@ def main():
         "factorization": repo / "groupby_lib" / "groupby" / "factorization.py",
         "core": repo / "groupby_lib" / "groupby" / "core.py",
         "nanops": repo / "groupby_lib" / "nanops.py",
+        "api": repo / "groupby_lib" / "groupby" / "api.py",
     }
     try:
         trees = {k: ast.parse(p.read_text()) for k, p in srcs.items()}
@@ -706,9 +708,15 @@ def main():
         ro = ro.replace("From Coq Require Import List ZArith Bool.", "From Coq Require Import List ZArith Bool String.\nImport ListNotations.")
         tb = "(* GENERATED by translator/py2coq.py — do not edit. *)\n" + gen_tables(trees)
         wc = gen_weight_code_sum(trees["factorization"])
+        import pins
+        try:
+            src = "(* GENERATED by translator/pins.py - do not edit. *)\n" + pins.generate(trees, "gen_src_")
+        except pins.PinError as e:
+            raise Unsupported(f"pins: {e}")
     except Unsupported as e:
         print(f"py2coq: {e}", file=sys.stderr)
         sys.exit(2)
+    write_if_changed(outdir / "SourcesGen.v", src)
     write_if_changed(outdir / "ScalarFuncsGen.v", sf)
     write_if_changed(outdir / "ReductionOpsGen.v", ro)
     write_if_changed(outdir / "TablesGen.v", tb)
